@@ -407,7 +407,7 @@ static void gen_cfg(sk_rng* r, int alloc_mode)
 		default: c->hello_len[s] = 1 + sk_below(r, 100); break;
 		}
 		sk_bytes(r, c->hello[s], sizeof(c->hello[s]));
-		c->tape_mode[s] = sk_chance(r, 1, 6) ? (int)(1 + sk_below(r, 2)) : 0;
+		c->tape_mode[s] = sk_chance(r, 1, 6) ? (int)(1 + sk_below(r, alloc_mode ? 2 : 3)) : 0;   /* 3: a dead generator (all zero) */
 		b2_keypair(c->priv[s], c->pub[s], c->l / 4, tape_gen, &setup);
 		/* certificate: arbitrary prefix || public key */
 		switch (sk_below(r, 6))
@@ -430,7 +430,9 @@ static void gen_cfg(sk_rng* r, int alloc_mode)
 	sk_bytes(r, c->pwd[0], 40);
 	memcpy(c->pwd[1], c->pwd[0], 40);
 	/* inconsistent configuration of the two sides */
-	c->mismatch = (!alloc_mode && sk_chance(r, 1, 8)) ? (int)(1 + sk_below(r, 4)) : 0;
+	c->mismatch = (!alloc_mode && sk_chance(r, 1, 8)) ? (int)(1 + sk_below(r, 5)) : 0;
+	if (c->mismatch == 5 && c->proto == P_BPACE)
+		c->mismatch = 2; /* BPACE has no certificates */
 	if (c->mismatch == 4 && (c->proto != P_BMQV || c->cert_pref[0] == 0))
 		c->mismatch = 2; /* certificate data enters the key derivation in BMQV only */
 	if (c->mismatch == 3 && c->proto != P_BMQV && c->proto != P_BAUTH)
@@ -495,6 +497,17 @@ static void setup_party(int s, uint64_t tape_seed, int apply_mismatch)
 				memcpy(other_cert, c->certdata[0], c->certlen[0]);
 				other_cert[sk_below(&p->tape.r, (uint32_t)c->cert_pref[0])] ^= 1;
 				p->peer.data = other_cert;
+			}
+			break;
+		case 5:
+			/* a certificate the validation callback rejects (too short to hold a public key):
+			   the peer's one where B was given it beforehand, B's own one otherwise */
+			if (s == 1)
+			{
+				if (c->proto == P_BMQV || c->proto == P_BAUTH)
+					p->peer.len = c->l / 2 - 1;
+				else
+					p->cert.len = c->l / 2 - 1;
 			}
 			break;
 		}
